@@ -151,3 +151,16 @@ Proof.
     assert (Hr : 1 = b * (u ^ 2 + v ^ 2)) by nra.
     destruct (Rle_lt_dec b 0) as [Hbn|Hbp]; nra.
 Qed.
+
+(* the single pole of a first order section 1 + k zinv is z = -k *)
+Lemma pole_of_ord1 num k (p : C) : is_pole (Filt num [1; k]) p <-> p = RtoC (- k).
+Proof.
+  unfold is_pole. cbn [fden rev app ceval]. destruct p as [u v]. unfold Cplus, Cmult, RtoC. cbn [fst snd].
+  split; intro Hp.
+  - assert (Hre := f_equal fst Hp). assert (Him := f_equal snd Hp). cbn [fst snd] in Hre, Him.
+    assert (Hu : u = - k) by (ring_simplify in Hre; lra).
+    assert (Hv : v = 0) by (ring_simplify in Him; lra).
+    subst. reflexivity.
+  - assert (Hu := f_equal fst Hp). assert (Hv := f_equal snd Hp). cbn [fst snd] in Hu, Hv. subst.
+    apply injective_projections; cbn [fst snd]; ring.
+Qed.
